@@ -230,7 +230,14 @@ class SendMessageSetup(Contract):
         us = getattr(I, "uuids", None)
         idx = 1 if self.with_callback else 0
         if not us or len(us) <= idx:
-            return None
+            # no id was given and none was drawn from uuid4: whatever the code uses instead is not known to be unique
+            # among the requests in flight (the uniqueness of generated ids is the uuid4 freshness assumption)
+            if not I.ghost.get("no_uuid_reported"):
+                I.ghost["no_uuid_reported"] = True
+                I.oblige(self.name("auto_generated_request_id_is_a_fresh_uuid4"), z3.BoolVal(False))
+            if I.ghost.get("substitute_req_id") is None:
+                I.ghost["substitute_req_id"] = I.fresh("some_request_id")
+            return I.ghost["substitute_req_id"]
         return V.VStr(us[idx])
 
     def written(self, I):
